@@ -33,6 +33,9 @@ class LinearMatrix(_AbstractDistribution):
         d = d.astype(G.dtype)
         if type(data_covariance) not in [float, _numpy.float32, _numpy.float64]:
             data_covariance = data_covariance.astype(G.dtype)
+        else:
+            # NumPy scalars are scalar variances too
+            data_covariance = float(data_covariance)
 
         # Four cases:
         # 1 - Dense G, scalar/vector covariance
